@@ -23,6 +23,47 @@ CLAIMED = {
              "Not decided: behaviour when an exact intermediate overflows/underflows (excluded by the "
              "property); trees are enumerated to depth 2 and n-ary arity <= 3 (thorough: 4).",
         ref="4/C02"),
+    "C01": dict(
+        technique=ABSINT + " + canonical-form algebra",
+        text="Expression.at is interpreted abstractly from source for every concrete class (children = "
+             "variables; arities 0..3, n up to 8 (thorough 30), bases below/at/above 1 and e), for composite and "
+             "shared-subexpression (DAG) instances and through the bare-number entry point, on every sign "
+             "region; the resulting closed-form term must have the same canonical form as the specification "
+             "reading of the tree (the 13-row table in spec.py). Equal canonical forms prove equality of the "
+             "real functions on the region; a reported violation always carries a numeric counter-instance of "
+             "the extracted term pair.",
+        note="Decides the real-arithmetic identity the code implements; does NOT decide the size of "
+             "floating-point rounding nor the 'exact on small integers/dyadics' clause. Trusted: ast, the "
+             "interpreter, the algebra's identities (listed in algebra.py), the specification table.",
+        ref="4/C01"),
+    "C03": dict(
+        technique=ABSINT + " + canonical-form algebra against a calculus table",
+        text="The late Partial/Derivative routes (forward mode) are interpreted abstractly on every class, on "
+             "chain/product/quotient compositions, repeated variables and DAGs, for every variable (occurring "
+             "or not; object or name; bare number for Derivative) and sign region of the domain; the term must "
+             "equal, in canonical form, the derivative of the specification reading.",
+        note="Real-arithmetic identity only (no rounding, no exactness clause). Depth-2 compositions; n up to "
+             "8/30. Trusted: ast, interpreter, algebra identities, spec.diff calculus table.",
+        ref="4/C03"),
+    "C04": dict(
+        technique=ABSINT + " + canonical-form algebra against a calculus table",
+        text="LocatedDifferential(e,p).component(v) and Differential(e).at(p).component(v) are interpreted "
+             "abstractly (reverse accumulation through every _compute_numeric_partials and the accumulator) on "
+             "every class, repeated variables and DAGs with a shared sub-expression object, for every variable "
+             "and sign region; the term must equal the specification derivative in canonical form.",
+        note="Same exclusions and trusted base as C03.",
+        ref="4/C04"),
+    "C07": dict(
+        technique=ABSINT + " + CFG must-pass-through",
+        text="All 14 numeric derivative routes (early and late) are interpreted abstractly on every class and "
+             "on every parent class with a possibly-undefined child in each argument position (zero factors, "
+             "zero numerators, base one, constant exponents, variable-free sub-trees): DomainError iff the "
+             "documented domain says the expression is undefined on the region. A CFG rule additionally shows "
+             "that no normal exit of any forward/reverse rule skips evaluating or visiting a child.",
+        note="Quick tier stays on the generic side of equalities between compound reals (measure-zero "
+             "surfaces such as x*y == 1 are explored in the thorough tier only) and uses 6 representative "
+             "routes for the undefined-child instances. Trusted: ast, interpreter, domain table.",
+        ref="4/C07"),
 }
 
 NOT_APPLICABLE = {
